@@ -41,6 +41,30 @@ func init() {
 	reg("(time.Time).Sub", func(g *G, fr *Frame, fn *ssa.Function, a []Value) Value {
 		return mkInt(BVBin("bvsub", timeExt(g, a[0]).Term(64), timeExt(g, a[1]).Term(64)))
 	})
+	// the model's time is nanoseconds on one monotonic axis (field ext)
+	reg("(time.Time).UnixNano", func(g *G, fr *Frame, fn *ssa.Function, a []Value) Value { return timeExt(g, a[0]) })
+	reg("(time.Time).UnixMilli", func(g *G, fr *Frame, fn *ssa.Function, a []Value) Value {
+		return mkInt(BVBin("bvsdiv", timeExt(g, a[0]).Term(64), BVConst(1000000, 64)))
+	})
+	reg("(time.Time).Unix", func(g *G, fr *Frame, fn *ssa.Function, a []Value) Value {
+		return mkInt(BVBin("bvsdiv", timeExt(g, a[0]).Term(64), BVConst(1000000000, 64)))
+	})
+	reg("time.Until", func(g *G, fr *Frame, fn *ssa.Function, a []Value) Value {
+		return mkInt(BVBin("bvsub", timeExt(g, a[0]).Term(64), BVConst(uint64(g.run.clock), 64)))
+	})
+	reg("(time.Time).Before", func(g *G, fr *Frame, fn *ssa.Function, a []Value) Value {
+		return mkBool(BVCmp("bvslt", timeExt(g, a[0]).Term(64), timeExt(g, a[1]).Term(64)))
+	})
+	reg("(time.Time).After", func(g *G, fr *Frame, fn *ssa.Function, a []Value) Value {
+		return mkBool(BVCmp("bvsgt", timeExt(g, a[0]).Term(64), timeExt(g, a[1]).Term(64)))
+	})
+	reg("(time.Time).Equal", func(g *G, fr *Frame, fn *ssa.Function, a []Value) Value {
+		return mkBool(Eq(timeExt(g, a[0]).Term(64), timeExt(g, a[1]).Term(64)))
+	})
+	reg("(time.Time).Compare", func(g *G, fr *Frame, fn *ssa.Function, a []Value) Value {
+		x, y := timeExt(g, a[0]).Term(64), timeExt(g, a[1]).Term(64)
+		return mkInt(Ite(BVCmp("bvslt", x, y), BVConst(^uint64(0), 64), Ite(Eq(x, y), BVConst(0, 64), BVConst(1, 64))))
+	})
 	reg("(time.Time).IsZero", func(g *G, fr *Frame, fn *ssa.Function, a []Value) Value {
 		return g.isZeroVal(timeExt(g, a[0]), types.Typ[types.Int64])
 	})
@@ -140,5 +164,6 @@ func init() {
 		return out
 	})
 	regV("RedialsWithoutBackoff", func(g *G, a []Value) Value { return I64(int64(g.run.env.unbackedDials)) })
+	regV("ReadsWithoutDeadline", func(g *G, a []Value) Value { return I64(int64(g.run.readsWithoutDeadline)) })
 	regV("TimersFired", func(g *G, a []Value) Value { return I64(int64(g.run.timersFired)) })
 }
